@@ -81,6 +81,9 @@ def main():
         tier = sys.argv[2]
     seed = int(os.environ.get("VERIF_SEED", "1") or 1)
     t0 = time.time()
+    if not replay:
+        for f in glob.glob(os.path.join(VERIF, "replays", prop + "-*.txt")):
+            os.remove(f)      # replays of earlier runs of this property are stale
     cfg = load_cfg(prop)
     mod = cfg["mod"]
     known, fixed = vcore.load_known(prop)
@@ -221,6 +224,13 @@ def main():
         del ev["coverage"]["obligations"], ev["coverage"]["discharged"]
     os.makedirs(os.path.join(VERIF, "evidence"), exist_ok=True)
     json.dump(ev, open(os.path.join(VERIF, "evidence", prop + ".json"), "w"), indent=1)
+    if os.environ.get("VERIF_DEBUG"):
+        shown = collections.Counter()
+        for r in results:
+            c = vcore.classify(r, known)
+            if c != "ok" and shown[c] < 4:
+                shown[c] += 1
+                print("DEBUG %s\n  op   %s\n  impl %s\n  model %s\n  spec %s" % (c, r["op"][:200], r["I"][:200], r["M"][:200], r["S"][:200]))
     if nviol == 0:
         print("OK property=%s tier=%s ops=%d sessions=%d theorems=%d/%d wall=%.1fs" % (
             prop, tier, len(results), n_sessions, len(state["discharged"]), len(state["obligations"]), time.time() - t0))
